@@ -1,5 +1,7 @@
 CFG = {
-    "lean_targets": ["Norad.Props.C07"],
+    "lean_targets": ["Norad.Props.C07", "Norad.Props.C07Containers"],
+    "gens": ["C07", "C06"],
+    "gen_rules": {"C06": ["glyph-paths-distinct", "layer-paths-distinct", "one-default-first"]},
     "audit": "Norad/Audit/C07.lean",
     "rule": ("norad::user_name_to_file_name through the public API with both norad affix pairs ('' + '.glif', 'glyphs.' + ''), a few foreign pairs, "
              "and closures that are stateful (accept the k-th call, k in 0..103) or taken-sets built from earlier results (0,1,2,..,98,99,100 clashes). "
@@ -21,12 +23,13 @@ CFG = {
     "assumptions": [
         "names are valid norad Names (non-empty, no C0/DEL/C1 controls) for the portability theorems; fileName_accepted / first_accepted / none_iff hold for every string",
         "prefix/suffix are the two pairs norad uses for the wrapper theorems (single component, leading period, affixes, reserved); length and acceptance theorems hold for every affix pair (length: suffix of at most 255 bytes)",
-        "container-level claims of C07 (distinct within a layer / layer set under histories, path stability) are built on fileName_accepted_stateless by the C06 container model, not here",
+        "container-level claims of C07 (distinct within a layer / layer set under histories incl. after loading, never the default directory, path stability) are theorems of Props/C07Containers.lean: the C06 container invariant instantiated with this algorithm; they are exercised by the C06 operation histories, which this check also runs (the driver predicts every assigned path with this model)",
     ],
 }
 
 MANIFEST = {
-    "text": ("Function level of C07. Lean model of norad::user_name_to_file_name (escaping, reserved-word underscore before the prefix, byte clipping backed off to a char boundary, "
+    "text": ("Function level and container level of C07 (container level: Props/C07Containers.lean instantiates the C06 invariant with this algorithm: "
+             "layer_paths_distinct_mod_lower, layerset_paths_distinct_mod_lower, layerset_never_assigns_glyphs, path_stable_*; exercised by the C06 histories). Function level: Lean model of norad::user_name_to_file_name (escaping, reserved-word underscore before the prefix, byte clipping backed off to a char boundary, "
              "trailing period/space replacement, 1..99 clash counter; is_uppercase/to_lowercase as parameters; FnMut closure indexed by call number). Theorems for ALL valid names of any length, "
              "all closures: the result is the first accepted of 100 explicit candidates and was accepted by the last call (never a rejected candidate; panic iff 100 rejections; the truncate calls never "
              "hit the inside of a character; back-off <= 3 steps); single path component without illegal/control characters, no leading period, no trailing period/space, affixes present, stem not a "
